@@ -446,6 +446,12 @@ pub fn generate(ctx: &mut Ctx) {
             }
         }
         let (obj, ofacts) = build(&pool, &c);
+        // relaxed operations: half of the objects additionally take BER's liberties outside the signed octets
+        // (lengths in the long or the indefinite form, strings in segments): the verdict must not move
+        let obj = if (ty == "sor" || ty == "roar") && rng.bool() {
+            let rate = *rng.pick(&[1u64, 4, 16]);
+            crate::berd::ber_encode_safe(&obj, &mut rng, rate).unwrap_or(obj)
+        } else { obj };
         let eefacts = c01::facts(&c.ee, c.ee_sig_ok, true, &pool.keys[2].ski);
         let mut ders = w.chain_ders.clone();
         ders.push(obj);
